@@ -77,7 +77,7 @@ AVOID = {
     # While True, cut cases whose bracket-end matching is None or not the exact one are labelled and skipped.
     "fastest_bracket_end": True,
     # Same root cause (ii), seen through the scans of the cut kind: findMatching returns non-solutions for ~10 % of
-    # slow walls (flux residual ~1e-2; C02 finding F1a).  While True the scans of slower walls start at vw = 0.02;
+    # slow walls, vw < 0.1 (flux residual ~1e-2; C02 finding F1a).  While True the scans of slower walls start at vw = 0.1;
     # slow walls remain in the matching kind, where the failing classes are .../deflagration/vw<0.01|vw<0.1.
     "slow_walls_in_scans": True,
     # fastestDeflag() assumes T+(vw) monotone: it looks for a sign change of T+(vw) - TMaxHighT between vMin + 1e-3
@@ -819,8 +819,8 @@ def check_cut(case, v):
             v.label("cut:non-monotone")
             return v.discarded("cut:non-monotone")
     if not abs(vf - vfirst) <= allowed:
-        if vf < 0.02 and vf < vfirst:
-            cls0 += "/vf<0.02"  # the root search ended in the slow-wall regime where findMatching returns non-solutions
+        if min(vf, vfirst) < 0.1:
+            cls0 += "/slow"  # the root search works with slow-wall matchings, ~10 % of which are non-solutions (C02 F1a)
         v.fail("cut-fastest", cls0,
                f"{first}-T range ends at T({vfirst:.8g}) = {Tfirst:.8g}: fastestDeflag() = {vf:.10g}, expected "
                f"{vfirst:.10g} (difference {vf - vfirst:.3e}, allowed {allowed:.2e}); vMin = {vmin:.6g}, vJ = {vJ2:.8g}",
@@ -850,7 +850,7 @@ def check_cut(case, v):
     n = 16
     a = max(vmin, 1e-3) + 1e-3
     if AVOID["slow_walls_in_scans"] and not case.get("force"):
-        a = max(a, 0.02)
+        a = max(a, 0.1)
     top = vf - 2.0 * allowed - 1e-3 * vf
     Tlow_max = rg["low"][1] * Tn
     Thigh_max = rg["high"][1] * Tn
